@@ -544,6 +544,22 @@ def pad_terms(g, total):
     g.note += '+padded%d' % total
     return g if len(g.terms) == total else None
 
+def pad_front(g, k):
+    """k unused char terms declared BEFORE the grammar's own terms: the real terms get the indices k, k+1, ... (k = 64 - j puts the j-th term at the
+    first bit of the second machine word of the term bit sets)"""
+    g = clone(g)
+    used = {t.text for t in g.terms}
+    pool = [c for c in list(WIDE_CHARS) if c not in used and c not in g.nts and all(c != u[0] for u in used)]
+    extra = [Term('c', c) for c in pool[:k]]
+    for c in 'abcdefghijklmnopqrstuvwxyzABCDEFGHIJKLMNOPQRSTUVWXYZ0123456789':
+        if len(extra) >= k: break
+        if ('Q_' + c) not in used: extra.append(Term('s', 'Q_' + c))
+    if len(extra) < k: return None
+    g.terms = extra + g.terms
+    g.rules = [Rule(r.lhs, [(sy[0], sy[1] + k) if sy[0] == 't' else sy for sy in r.rhs], r.prec, r.ftor) for r in g.rules]
+    g.note += '+front%d' % k
+    return g
+
 def long_names(g, rnd):
     """names (nonterminals, custom and regex terms) of 30..300 characters that agree in a long common prefix: symbols are bound by their
     names/ids, so any bounded or prefix comparison of names merges two symbols"""
